@@ -334,27 +334,32 @@ def sortedKeys (l : List Nat) : List Nat := Sort.isort (fun a b => decide (a ≤
 
 /-! ### `BaseIndex` / `OkapiIndex` -/
 
+/-- the three loops of `BaseIndex.reindex_doc`: word ids only in the old version are deleted, ids
+only in the new one added, ids in both re-weighted when the weight changed; `false` = `KeyError` -/
+def reindexLoops (c : TCfg Wt) (x : TTx W Wt) (d : Int) (old new : AMap Nat Wt) : TTx W Wt × Bool :=
+  let oldSet := sortedKeys (AMap.keys old)
+  let newSet := sortedKeys (AMap.keys new)
+  let inBoth := oldSet.filter (· ∈ newSet)
+  let onlyOld := oldSet.filter (· ∉ inBoth)
+  let onlyNew := newSet.filter (· ∉ inBoth)
+  let r1 := delAll x d onlyOld
+  if !r1.2 then (r1.1, false)
+  else
+    let x := addAll c r1.1 d new onlyNew
+    let changed := inBoth.filter (fun w => AMap.get old w ≠ AMap.get new w)
+    (addAll c x d new changed, true)
+
 /-- `BaseIndex.reindex_doc`; returns `len(new_wids)`; `false` = `KeyError` -/
 def baseReindex (c : TCfg Wt) (x : TTx W Wt) (d : Int) (words : List W) : TTx W Wt × Nat × Bool :=
   let x := x.rd (.docwords d)                                  -- `self.get_words(docid)`
   match AMap.get x.heap.docwords d with
   | none => (x, 0, false)
   | some oldWids =>
-    let old := c.freq oldWids
     let r := sourceToWordIds x words
-    let new := c.freq r.2
-    let oldSet := sortedKeys (AMap.keys old.1)
-    let newSet := sortedKeys (AMap.keys new.1)
-    let inBoth := oldSet.filter (· ∈ newSet)
-    let onlyOld := oldSet.filter (· ∉ inBoth)
-    let onlyNew := newSet.filter (· ∉ inBoth)
-    let r1 := delAll r.1 d onlyOld
+    let r1 := reindexLoops c r.1 d (c.freq oldWids).1 (c.freq r.2).1
     if !r1.2 then (r1.1, 0, false)
     else
-      let x := addAll c r1.1 d new.1 onlyNew
-      let changed := inBoth.filter (fun w => AMap.get old.1 w ≠ AMap.get new.1 w)
-      let x := addAll c x d new.1 changed
-      let x := x.dwtSet d new.2
+      let x := r1.1.dwtSet d (c.freq r.2).2
       let x := x.dwSet d r.2
       (x, r.2.length, true)
 
